@@ -952,6 +952,11 @@ fn partition(
             None => break,
         }
     }
+    // A group may consist of symbolic links only, when the files they point to have not
+    // been scanned. There is no replica to retain then, so no link can be safely dropped.
+    if !to_retain.iter().any(is_replica) {
+        to_retain.append(&mut to_drop);
+    }
 
     // Paths with the same file identifier are normally hard links, i.e. different directory
     // entries. If there are more of them than links to the file, some are the same entry seen
